@@ -386,6 +386,16 @@ int fiber_sleep(uint32_t seconds, uint32_t useconds) {
 
   fiber_spinlock_lock(&sleep_spinlock);
 
+#if defined(__linux__)
+  // timer expirations that happened before this call but have not been read
+  // yet must not count towards this sleeper's duration
+  uint64_t pending_count = 0;
+  if (fibershim_read(timer_fd, &pending_count, sizeof(pending_count)) ==
+      sizeof(pending_count)) {
+    timer_trigger_count += pending_count;
+  }
+#endif
+
   const uint64_t wake_time = timer_trigger_count + sleep_ms;
   wake_info.wake_time = wake_time;
   waiter_insert(&sleepers, &wake_info);
